@@ -16,7 +16,7 @@ from concurrent.futures import ThreadPoolExecutor
 
 ROOT = os.path.dirname(os.path.dirname(os.path.abspath(__file__)))
 COQ = os.path.join(ROOT, "coq")
-REPO = "/repo"
+from .repo_root import REPO
 NPROC = min(16, os.cpu_count() or 4)
 
 AXIOM_WHITELIST = {
